@@ -559,6 +559,22 @@ func init() {
 		},
 	})
 
+	// ---------------------------------------------------------------- C37
+	c37Files := []string{"c37/c37.go", "gen:goastkinds", "gen:corpus:token/*.go;ast/*.go;ast/fromgo/*.go;ast/togo/*.go;scanner/*.go;x/xgoprojs/*.go;x/fakenet/*.go;x/watcher/*.go;format/*.go;x/typesutil/*.go;tpl/types/*.go;tpl/ast/*.go;x/jsonrpc2/*.go;cl/internal/typesutil/*.go:60:14000"}
+	register(&checkSpec{
+		ID:   "C37",
+		Rule: "Go source = (a) one of 32 concrete declaration contexts (functions, methods, receivers, variadics, named results, type definitions and aliases, struct fields with tags, interface methods, union constraints, type parameters, instantiations, values with every operator position, literals, slice expressions, calls with ellipsis, channel directions, array lengths, composite literals, type assertions, closures, import specs) around a window of <= N symbolic bytes, (b) up to 60 .go files of the repository as a concrete corpus; parsed by GOROOT's go/parser (executed from go/ssa), converted by the real fromgo.ASTFile and back by the real togo.ASTFile; per declaration the header signature (node kinds, tokens, names, literal values, channel directions, structure; generated at check time from go/ast's struct definitions) must be unchanged",
+		Assumptions: []string{
+			"bound: windows of <= N ASCII bytes in the listed contexts; corpus files of at most 14000 bytes",
+			"function bodies and closure bodies are dropped by the conversion by design and are not compared; positions and comments are not compared; 'printed headers equal' is decided as structural equality of exactly the fields go/printer prints (go/printer itself is not executed)",
+		},
+		Harnesses: []harnessSpec{
+			{Name: "VxC37Corpus", Pkg: "github.com/goplus/xgo/ast/togo", Files: c37Files, Quick: map[string]int{"N": 0, "P": 0}, MaxSteps: 80_000_000},
+			{Name: "VxC37", Pkg: "github.com/goplus/xgo/ast/togo", Files: c37Files,
+				Quick: map[string]int{"N": 2}, Thorough: map[string]int{"N": 3}, Variants: c15Variants(32), MaxSteps: 8_000_000},
+		},
+	})
+
 	// ---------------------------------------------------------------- C19 / C20 / C21
 	register(&checkSpec{
 		ID:   "C19",
